@@ -1,0 +1,27 @@
+//go:build verif
+
+// Contracts for package pattern, read by the verification engine in /verif
+// (comment-only; compiled only under the "verif" build tag).
+
+package pattern
+
+//@ props C19 C12 C16
+
+//@ default opaque
+
+//@ func Match
+//@   ensures result1 == nil ==> len(result0) <= len(s)
+//@   ensures mode&Suffix != 0 && mode&Prefix != 0 ==> result1 == NoMatch
+//@   loop "for mode&Smallest != 0 && mode&Suffix != 0" invariant len(m) == 2 && len(m[0]) <= len(s) && len(m[1]) <= len(s#0)
+
+//@ func compile
+//@   ensures result1 == nil ==> result0 != nil
+// The translation emits exactly one capture group; that the compiled
+// expression then reports one sub-expression is a fact about package regexp.
+//@   assumes result1 == nil ==> nsub(result0) == 1
+
+//@ func glob
+//@   requires rx != nil && fn != nil
+
+//@ func indexSep
+//@   ensures (result0 == -1 && result1 == 0) || (0 <= result0 && 1 <= result1 && result1 <= 2 && result0 + result1 <= len(pat))
